@@ -575,6 +575,23 @@ impl SvgElement {
         }
     }
 
+    /// True if the element carries the compound shorthand which expands to `key`
+    /// (e.g. `wh` for `width`), so that `key` counts as given.
+    pub fn has_shorthand_for(&self, key: &str) -> bool {
+        let shorthand = match key {
+            "x" | "y" => "xy",
+            "cx" | "cy" => "cxy",
+            "x1" | "y1" => "xy1",
+            "x2" | "y2" => "xy2",
+            "width" | "height" => "wh",
+            "rx" | "ry" => "rxy",
+            "dx" | "dy" => "dxy",
+            "dw" | "dh" => "dwh",
+            _ => return false,
+        };
+        self.has_attr(shorthand)
+    }
+
     pub fn is_connector(&self) -> bool {
         self.has_attr("start")
             && self.has_attr("end")
